@@ -27,6 +27,28 @@ def private_kmodel(ctx):
             time.sleep(2)
 
 
+def corpus_traces_parallel(ctx, corpus, procs=8, extra_args=()):
+    """`vlib.corpus_traces` with the corpus files run side by side (every file is its own in-process krill,
+    5-10 s each); same reporting, same order of the returned traces."""
+    import concurrent.futures
+    cdir = vlib.VERIF / "corpus" / corpus
+    files = sorted(cdir.glob("*.ops")) if cdir.exists() else []
+    def one(f):
+        tr = ctx.work / f"corpus-{f.stem}.trace"
+        r = vlib.run([vlib.hbin(HARNESS), "--ops", str(f), "--out", str(tr)] + list(extra_args), timeout=3600)
+        return (f, tr, r.returncode, r.stdout[-3000:])
+    out = []
+    with concurrent.futures.ThreadPoolExecutor(max_workers=max(1, procs)) as ex:
+        for f, tr, rc, tail in ex.map(one, files):
+            if rc != 0:
+                ctx.log(f"harness failed on corpus {f}: {tail[-1500:]}")
+                vlib.report_violation(ctx, "harness-crash", {"corpus": str(f), "output": tail},
+                                      signature=f"crash:{HARNESS}:corpus")
+                continue
+            out.append(tr)
+    return out
+
+
 def failures(case):
     return [(i, v) for i, (t, v) in enumerate(case["ops"]) if v.startswith("FAIL") or v.startswith("bad-op")]
 
